@@ -33,6 +33,8 @@ class Rules(Obligation):
                      'artifacts':'per path: absent / material only / product only / both, one free digest byte each (equal or different)' if group=='basic' else 'per path present/absent on the rule side; referenced step: per path present/absent with a free digest byte',
                      'hash_map_iteration':'insertion order (the rule engine iterates BTree collections only; HashMap is used for lookup by name)','normalisation':'all paths already normal (no ./ .. //); non-normal paths are C14\'s'}
         self.witnesses=['accept','reject']; self.seen=set()
+        if group=='both':
+            self.bounds.update({'rule_list':'one of 6 material rule lists and one of 6 product rule lists on the same item (ALLOW / DELETE / MODIFY / REQUIRE / CREATE / DISALLOW)','artifacts':'paths a and d/b, each absent / material / product / both, free digest bytes'})
         if group=='algs':
             self.hash_order='all'      # digest tables are HashMaps: every iteration order of a two-algorithm table is explored
             self.bounds.update({'rule_list':'MATCH a WITH PRODUCTS FROM t (or WITH MATERIALS), followed by DISALLOW * / REQUIRE a / nothing','artifacts':'a recorded under sha256 and sha512 on the rule side (free digest bytes); on the side of t under both, only sha256 or only sha512 (free bytes): the descriptions must be equal as a whole','hash_map_iteration':'every permutation'})
@@ -61,6 +63,22 @@ class Rules(Obligation):
             rl=[self.mk_rule(r) for r in rules]
             it=b.step('it',1,[],rl if side=='materials' else [],rl if side=='products' else [])
             return [Ref(Cell(Ref(Cell(it)))),Ref(Cell(lm))],{'side':side,'rules':rules,'links':links}
+        if self.group=='both':
+            # one item with material rules AND product rules; a path may be material and product at once: the two passes are independent
+            MR=[[],[{'kind':'ALLOW','pattern':'a'}],[{'kind':'ALLOW','pattern':'*'}],[{'kind':'DELETE','pattern':'a'},{'kind':'DISALLOW','pattern':'*'}],[{'kind':'MODIFY','pattern':'a'}],[{'kind':'REQUIRE','pattern':'a'},{'kind':'ALLOW','pattern':'a'}]]
+            PR=[[{'kind':'DISALLOW','pattern':'*'}],[{'kind':'CREATE','pattern':'d/b'},{'kind':'DISALLOW','pattern':'*'}],[{'kind':'ALLOW','pattern':'d/*'},{'kind':'REQUIRE','pattern':'a'}],[{'kind':'MODIFY','pattern':'a'},{'kind':'DISALLOW','pattern':'*'}],[{'kind':'CREATE','pattern':'zz'},{'kind':'REQUIRE','pattern':'a'}],[]]
+            mr=MR[run.pick(len(MR),'mrules')]; pr=PR[run.pick(len(PR),'prules')]
+            mats={}; prods={}
+            for p in ('a','d/b'):
+                st=run.pick(4,'state_'+p)
+                if st in (1,3): mats[p]=self.desc(z3.BitVec('m_'+p,8))
+                if st in (2,3): prods[p]=self.desc(z3.BitVec('p_'+p,8))
+            links={'it':{'materials':mats,'products':prods}}
+            def mk_art(d):
+                return [(b.vpath(p),b.hashmap([(b.variant('HashAlgorithm','Sha256'),Agg('HashValue',[u8vec(bs)])) for alg,bs in dd.items()])) for p,dd in sorted(d.items())]
+            lm=b.hashmap([(mk_string(n),b.link(n,mk_art(l['materials']),mk_art(l['products']))) for n,l in links.items()])
+            it=b.step('it',1,[],[self.mk_rule(r) for r in mr],[self.mk_rule(r) for r in pr])
+            return [Ref(Cell(Ref(Cell(it)))),Ref(Cell(lm))],{'side':'both','rules':mr+pr,'mrules':mr,'prules':pr,'links':links}
         if self.group=='pairs': rules=list(PAIRS[run.pick(len(PAIRS),'pair')])
         else: rules=[cat[run.pick(len(cat),'rule%d'%i)] for i in range(self.seq)]
         rules=rules+TAILS[run.pick(len(TAILS),'tail')]
@@ -95,6 +113,9 @@ class Rules(Obligation):
         return [item,Ref(Cell(lm))],{'side':side,'rules':rules,'links':links}
     def scn(self,g,m):
         def conc(d): return {p:{alg:[model_value(m,x) for x in bs] for alg,bs in dd.items()} for p,dd in d.items()}
+        if g['side']=='both':
+            return {'kind':'rules','item':self.item,'side':'both','mrules':[rule_json(r) for r in g['mrules']],'prules':[rule_json(r) for r in g['prules']],
+                    'links':{n:{'materials':conc(l['materials']),'products':conc(l['products'])} for n,l in g['links'].items()}}
         return {'kind':'rules','item':self.item,'side':g['side'],'rules':[rule_json(r) for r in g['rules']],
                 'links':{n:{'materials':conc(l['materials']),'products':conc(l['products'])} for n,l in g['links'].items()}}
     def check(self,run,out,g):
@@ -103,7 +124,10 @@ class Rules(Obligation):
             r,m=run.check_sat(z3.BoolVal(True))
             rec['viol']={'kind':'panic','known_key':None,'scenario':self.scn(g,m),'predicted':'panic','what':'apply_rules_on_link panics: '+str(out[1])}; return rec
         own=g['links']['it']
-        acc=oracle.verify_item_rules(g['rules'],own['materials'],own['products'],g['side'],g['links'])
+        if g['side']=='both':
+            acc=z3.And(oracle.verify_item_rules(g['mrules'],own['materials'],own['products'],'materials',g['links']),oracle.verify_item_rules(g['prules'],own['materials'],own['products'],'products',g['links']))
+        else:
+            acc=oracle.verify_item_rules(g['rules'],own['materials'],own['products'],g['side'],g['links'])
         tag=shape_tag(g['rules'])
         if oc=='ok':
             r,m=run.check_sat(z3.Not(acc))
